@@ -22,6 +22,8 @@ type EntrySpec struct {
 	Func          string         `json:"func"`
 	Covers        []string       `json:"covers"`
 	MapOrderAll   bool           `json:"map_order_all"`
+	MapRotations  bool           `json:"map_order_rotations"`
+	MapOrderSeeds int            `json:"map_order_seeds"`
 	SymbolicNanos bool           `json:"symbolic_nanos"`
 	Quick         map[string]int `json:"quick"`
 	Thorough      map[string]int `json:"thorough"`
@@ -178,7 +180,7 @@ func CmdCheck(args []string) int {
 			problems = append(problems, err.Error())
 			continue
 		}
-		cfg := interp.Config{MapOrderAll: e.MapOrderAll, SymbolicNanos: e.SymbolicNanos, Bounds: bounds, KnownOpen: knownOpen, MaxSteps: e.MaxSteps, SolverKind: e.Solver, Trace: *verbose}
+		cfg := interp.Config{MapOrderAll: e.MapOrderAll, MapOrderRotations: e.MapRotations, MapOrderSeeds: e.MapOrderSeeds, SymbolicNanos: e.SymbolicNanos, Bounds: bounds, KnownOpen: knownOpen, MaxSteps: e.MaxSteps, SolverKind: e.Solver, Trace: *verbose}
 		if *tier == "thorough" {
 			cfg.TimeoutMs = 120000
 		}
